@@ -7,6 +7,7 @@ import (
 	"errors"
 	"fmt"
 	"io"
+	"strings"
 	"sync"
 	"testing"
 	"testing/synctest"
@@ -49,13 +50,14 @@ type call struct {
 }
 
 // recStore is the header.Store handed to NewExchangeServer: it forwards to a real
-// store.Store and logs every call. fault: 0 none, 1 every ctx-taking read blocks until
-// the request context ends and returns its error, 2 every read fails at once.
+// store.Store and logs every call. faults: one mode per kind of context-taking read
+// (kHead, kRange, kGet): 0 none, 1 the read blocks until the request context ends and
+// returns its error, 2 the read fails at once. HasAt returns a bare bool and is not faulted.
 type recStore struct {
 	inner header.Store[H]
 	mu    sync.Mutex
 	log   []call
-	fault int
+	faults [3]int
 	// crashed: a call would have taken the process down (panic inside the store, or a span
 	// so large that the store's make([]H, to-from) panics or exhausts memory); the proxy
 	// keeps the driver alive, records the call and reports the request as OPanic
@@ -69,6 +71,12 @@ type recStore struct {
 var errCrash = errors.New("c10: store call would crash the process")
 
 const hugeSpan = 1 << 20
+
+const (
+	kHead = iota
+	kRange
+	kGet
+)
 
 var errInjected = errors.New("c10: injected store failure")
 
@@ -102,8 +110,8 @@ func (r *recStore) take() []call {
 }
 
 // faulty reports the injected error for a read call (nil = forward to the real store).
-func (r *recStore) faulty(ctx context.Context) error {
-	switch r.fault {
+func (r *recStore) faulty(ctx context.Context, kind int) error {
+	switch r.faults[kind] {
 	case 1:
 		<-ctx.Done()
 		return ctx.Err()
@@ -114,7 +122,7 @@ func (r *recStore) faulty(ctx context.Context) error {
 }
 
 func (r *recStore) Head(ctx context.Context, opts ...header.HeadOption[H]) (H, error) {
-	if err := r.faulty(ctx); err != nil {
+	if err := r.faulty(ctx, kHead); err != nil {
 		r.rec(call{kind: "head", failed: true})
 		return nil, err
 	}
@@ -128,7 +136,7 @@ func (r *recStore) Head(ctx context.Context, opts ...header.HeadOption[H]) (H, e
 }
 
 func (r *recStore) Get(ctx context.Context, hash header.Hash) (H, error) {
-	if err := r.faulty(ctx); err != nil {
+	if err := r.faulty(ctx, kGet); err != nil {
 		r.rec(call{kind: "get", hash: hash, failed: true})
 		return nil, err
 	}
@@ -142,7 +150,7 @@ func (r *recStore) Get(ctx context.Context, hash header.Hash) (H, error) {
 }
 
 func (r *recStore) GetByHeight(ctx context.Context, height uint64) (H, error) {
-	if err := r.faulty(ctx); err != nil {
+	if err := r.faulty(ctx, kRange); err != nil {
 		r.rec(call{kind: "getbyheight", a: height, failed: true})
 		return nil, err
 	}
@@ -156,7 +164,7 @@ func (r *recStore) GetByHeight(ctx context.Context, height uint64) (H, error) {
 }
 
 func (r *recStore) GetRangeByHeight(ctx context.Context, from H, to uint64) (hs []H, err error) {
-	if err := r.faulty(ctx); err != nil {
+	if err := r.faulty(ctx, kRange); err != nil {
 		r.rec(call{kind: "getrangebyheight", a: from.Height() + 1, b: to, failed: true})
 		return nil, err
 	}
@@ -164,7 +172,7 @@ func (r *recStore) GetRangeByHeight(ctx context.Context, from H, to uint64) (hs 
 }
 
 func (r *recStore) GetRange(ctx context.Context, from, to uint64) ([]H, error) {
-	if err := r.faulty(ctx); err != nil {
+	if err := r.faulty(ctx, kRange); err != nil {
 		r.rec(call{kind: "getrange", a: from, b: to, failed: true})
 		return nil, err
 	}
@@ -306,6 +314,10 @@ type cfg struct {
 	noSync      bool // leave the appended headers in the write batch (no Sync, no pruning possible)
 	cache       int  // store cache size (0 = default)
 	reserve     int  // further headers of the same chain, appended while requests are served
+	// server configuration: p2p.WithMetrics(), a non-default RequestTimeout (0 = the default, 10 s)
+	metrics    bool
+	reqTimeout time.Duration
+	faultsOnly bool // serve only the fault grids (the rest of the request classes ran on the twin configuration)
 }
 
 type world struct {
@@ -331,7 +343,8 @@ type world struct {
 
 type pending struct {
 	raw     []byte
-	fault   int
+	fault   [3]int
+	el      time.Duration
 	class   string
 	rp      reply
 	log     []call
@@ -341,6 +354,9 @@ type pending struct {
 }
 
 func (w *world) tail() uint64 { return w.tl }
+
+// requestTimeout is the RequestTimeout the server was configured with.
+func (w *world) requestTimeout() time.Duration { return w.srv.Params.RequestTimeout }
 func (w *world) head() uint64 { return w.hd }
 
 func build(t *testing.T, c cfg, reg *vhdr.Registry) *world {
@@ -435,7 +451,14 @@ func build(t *testing.T, c cfg, reg *vhdr.Registry) *world {
 	}
 	hosts := w.net.Hosts()
 	w.server, w.client = hosts[0], hosts[1]
-	w.srv, err = p2p.NewExchangeServer[H](w.server, w.rec, p2p.WithNetworkID[p2p.ServerParameters](networkID))
+	sopts := []p2p.Option[p2p.ServerParameters]{p2p.WithNetworkID[p2p.ServerParameters](networkID)}
+	if c.metrics {
+		sopts = append(sopts, p2p.WithMetrics[p2p.ServerParameters]())
+	}
+	if c.reqTimeout > 0 {
+		sopts = append(sopts, p2p.WithRequestTimeout[p2p.ServerParameters](c.reqTimeout))
+	}
+	w.srv, err = p2p.NewExchangeServer[H](w.server, w.rec, sopts...)
 	if err != nil {
 		t.Fatal(err)
 	}
@@ -652,14 +675,19 @@ func uvarint(b []byte) (uint64, int) {
 // ---------------------------------------------------------------- one case
 
 func (w *world) one(em *emit.Writer, raw []byte, fault int, class string) {
-	w.pend = append(w.pend, w.observe(raw, fault, class))
+	w.pend = append(w.pend, w.observe(raw, [3]int{fault, fault, fault}, class))
+}
+
+// oneK: a fault mode per call kind (Head, GetRange, Get)
+func (w *world) oneK(em *emit.Writer, raw []byte, faults [3]int, class string) {
+	w.pend = append(w.pend, w.observe(raw, faults, class))
 }
 
 // observe serves one request and collects everything observable about it.
-func (w *world) observe(raw []byte, fault int, class string) pending {
+func (w *world) observe(raw []byte, fault [3]int, class string) pending {
 	reqTerm, reqKind := w.classify(raw)
 	w.rec.take()
-	w.rec.fault = fault
+	w.rec.faults = fault
 	w.ds.start()
 	t0 := time.Now()
 	rp := w.exchange(raw)
@@ -667,7 +695,7 @@ func (w *world) observe(raw []byte, fault int, class string) pending {
 	el := time.Since(t0)
 	keys, found := w.ds.stop()
 	log := w.rec.take()
-	w.rec.fault = 0
+	w.rec.faults = [3]int{}
 	if w.rec.crashed {
 		w.rec.crashed = false
 		rp.term, rp.kind = "OPanic", "panic"
@@ -681,7 +709,7 @@ func (w *world) observe(raw []byte, fault int, class string) pending {
 		// height of the header the key belongs to (0: a key of no header of this chain), and whether it was there
 		disk[i] = fmt.Sprintf("(%d, %s)", w.keyHt[k], emit.B(found[i]))
 	}
-	return pending{raw: raw, fault: fault, class: class, rp: rp, log: log, disk: disk, reqTerm: reqTerm, reqKind: reqKind}
+	return pending{raw: raw, fault: fault, el: el, class: class, rp: rp, log: log, disk: disk, reqTerm: reqTerm, reqKind: reqKind}
 }
 
 // emitAll renders the collected observations of a quiescent store as cases.
@@ -711,12 +739,14 @@ func (w *world) render(em *emit.Writer, p pending, st1, hook, st2 string, extra 
 		em.Count("store_call", c.kind)
 	}
 	disk = p.disk
-	faultTerm := []string{"FNone", "FSlow", "FErr"}[p.fault]
-	term := fmt.Sprintf("Case10 %s %s %s %s %s %s %s %d %d %s %s", st1, faultTerm, p.reqTerm, p.rp.term,
-		emit.List(ranges), emit.List(gets), emit.List(disk), o1, other, hook, st2)
+	fn := []string{"FNone", "FSlow", "FErr"}
+	faultTerm := fmt.Sprintf("(KModes %s %s %s)", fn[p.fault[kHead]], fn[p.fault[kRange]], fn[p.fault[kGet]])
+	term := fmt.Sprintf("Case10 %s %s %s %s %s %s %s %d %d %s %s %d %d", st1, faultTerm, p.reqTerm, p.rp.term,
+		emit.List(ranges), emit.List(gets), emit.List(disk), o1, other, hook, st2,
+		w.requestTimeout().Milliseconds(), p.el.Milliseconds())
 	nontriv := p.rp.frames > 0 || len(ranges) > 0 || len(gets) > 0
 	d := map[string]any{"cfg": w.cfg.name, "tail": w.tl, "head": w.hd, "req": p.reqTerm, "raw": fmt.Sprintf("%x", p.raw),
-		"fault": faultTerm, "reply": p.rp.term, "ranges": ranges, "gets": gets, "disk_reads": disk, "class": p.class}
+		"fault": faultTerm, "request_timeout_ms": w.requestTimeout().Milliseconds(), "elapsed_ms": p.el.Milliseconds(), "reply": p.rp.term, "ranges": ranges, "gets": gets, "disk_reads": disk, "class": p.class}
 	for k, v := range extra {
 		d[k] = v
 	}
@@ -724,6 +754,26 @@ func (w *world) render(em *emit.Writer, p pending, st1, hook, st2 string, extra 
 	em.Count("reply", p.rp.kind)
 	em.Count("request", p.reqKind)
 	em.Count("fault", faultTerm)
+	em.Count("server_config", fmt.Sprintf("metrics=%v/RequestTimeout=%s", w.cfg.metrics, w.requestTimeout()))
+	switch {
+	case p.el == 0:
+		em.Count("reply_instant", "at-once")
+	case p.el == w.requestTimeout():
+		em.Count("reply_instant", "at-RequestTimeout")
+	default:
+		em.Count("reply_instant", "other:"+p.el.String())
+	}
+	if strings.HasPrefix(p.class, "kgrid") {
+		path := "none"
+		var ks []string
+		for _, c := range p.log {
+			ks = append(ks, c.kind)
+		}
+		if len(ks) > 0 {
+			path = strings.Join(ks, ">")
+		}
+		em.Count("fault_grid_cell", fmt.Sprintf("head=%s/getrange=%s/%s/%s", fn[p.fault[kHead]], fn[p.fault[kRange]], path, p.rp.kind))
+	}
 	em.Count("range_calls", fmt.Sprint(len(ranges)))
 	dk := "0"
 	switch n := len(p.disk); {
@@ -819,7 +869,7 @@ func (w *world) dynStep(t *testing.T, em *emit.Writer, hook string, m mutation, 
 		merr = w.apply(m)
 		w.ds.pause(false)
 	}
-	p := w.observe(raw, 0, class)
+	p := w.observe(raw, [3]int{}, class)
 	fired := w.rec.hookFired
 	w.rec.hookFn = nil
 	if merr != nil {
@@ -967,6 +1017,10 @@ func TestC10(t *testing.T) {
 		{name: "from50gap", first: 50, last: 60, tail: 53, extraGap: 2, extraN: 3},
 		{name: "pending", first: 1, last: 12, tail: 1, batch: 2048, noSync: true},
 		{name: "top", first: top - 20, last: top - 1, tail: top - 9},
+		// the server configured differently: WithMetrics() and RequestTimeout 7 s / 250 ms instead of the default 10 s
+		{name: "t200h300m7s", first: 1, last: 300, tail: 200, metrics: true, reqTimeout: 7 * time.Second, faultsOnly: true},
+		{name: "t5h9m250ms", first: 1, last: 9, tail: 5, batch: 4, metrics: true, reqTimeout: 250 * time.Millisecond, faultsOnly: true},
+		{name: "t20h90t13s", first: 1, last: 90, tail: 20, cache: 4, reqTimeout: 13 * time.Second, faultsOnly: true},
 	}
 	if thorough {
 		cfgs = append(cfgs,
@@ -981,7 +1035,22 @@ func TestC10(t *testing.T) {
 		synctest.Test(t, func(t *testing.T) {
 			w := build(t, c, reg)
 			defer w.close(t)
-			w.run(em, rng, thorough)
+			if c.faultsOnly {
+				// server configuration varied: the fault grids again
+				var hashes [][]byte
+				for i, h := range w.expect {
+					if i < 2 || i == len(w.expect)-1 {
+						hashes = append(hashes, h.Hash())
+					}
+				}
+				hashes = append(hashes, []byte("no such header"))
+				w.runFaults(em, hashes)
+				for _, b := range [][]byte{{}, {0}, originReq(w.tl, 2), originReq(0, 1)} {
+					w.one(em, b, 0, "config-healthy")
+				}
+			} else {
+				w.run(em, rng, thorough)
+			}
 			w.readBack(t)
 			w.emitAll(em)
 		})
@@ -1167,7 +1236,14 @@ func (w *world) run(em *emit.Writer, rng *emit.Rand, thorough bool) {
 	for _, b := range mal {
 		w.one(em, b, 0, "malformed")
 	}
-	// 7. the store fails: a sample of every class, under both fault modes
+	w.runFaults(em, hashes)
+}
+
+// runFaults: the store fails.
+func (w *world) runFaults(em *emit.Writer, hashes [][]byte) {
+	tl, hd := w.tail(), w.head()
+	mid := tl + (hd-tl)/2
+	// 7. a sample of every class, under both fault modes applied to every call kind
 	for _, f := range []int{1, 2} {
 		for _, o := range []uint64{0, tl - 1, tl, mid, hd, hd + 1} {
 			for _, a := range []uint64{0, 1, 2, 64, 65, hd - o + 2} {
@@ -1178,5 +1254,27 @@ func (w *world) run(em *emit.Writer, rng *emit.Rand, thorough bool) {
 			w.one(em, hashReq(h, 1), f, "fault-hash")
 		}
 		w.one(em, []byte{0}, f, "fault-malformed")
+	}
+	// 8. a mode per call kind: the full grid Head-mode x GetRange-mode (HasAt is context-free) over the
+	// request shapes: HasAt true -> GetRange; HasAt false -> Head -> GetRange (the partial range past the
+	// head); HasAt false -> Head -> NOT_FOUND (above the head / below the tail); straddling the tail; the
+	// head request; an oversized and an empty request (no store call)
+	shapes := [][2]uint64{{mid, 2}, {hd, 1}, {hd - 1, 5}, {hd, 64}, {tl, hd - tl + 2}, {hd + 1, 1}, {tl - 1, 1}, {tl - 1, 3}, {0, 1}, {mid, 65}, {mid, 0}}
+	for hm := 0; hm < 3; hm++ {
+		for rm := 0; rm < 3; rm++ {
+			for _, s := range shapes {
+				w.oneK(em, originReq(s[0], s[1]), [3]int{hm, rm, 0}, "kgrid")
+			}
+		}
+	}
+	// the Get mode against the two others: a hash request only depends on Get's, a range request never does
+	for gm := 1; gm < 3; gm++ {
+		for _, other := range []int{0, 3 - gm} {
+			for _, h := range hashes[:min(2, len(hashes))] {
+				w.oneK(em, hashReq(h, 1), [3]int{other, other, gm}, "kgrid-hash")
+				w.oneK(em, hashReq(h, 1), [3]int{gm, gm, other}, "kgrid-hash")
+			}
+			w.oneK(em, originReq(hd-1, 5), [3]int{other, other, gm}, "kgrid-get-unused")
+		}
 	}
 }
